@@ -75,7 +75,8 @@ theorem C01_settlement (env : Env) (s s' : State) (h : settle env s = .ok s') (h
   rw [g.feePool, g.tips]
   omega
 
-/-- creating a missing builtin pool adds its nobody-owned initial liquidity (10^9 on each side) and nothing else -/
+/-- creating a missing builtin pool — or, since the `fix:` for F23, replacing one that records no liquidity — adds
+    its nobody-owned initial liquidity (10^9 on each side) and nothing else (what a replaced pool held disappears) -/
 theorem C01_builtins (s : State) (d : Denom) (hk : (s.pools.map (·.1)).Nodup) :
     supply (createBuiltins s) d ≤ supply s d + 3 * (2 * (MICRO_CONVERTER * BUILTIN_LIQ_MULT)) ∧
     (createBuiltins s).coins = s.coins ∧ (createBuiltins s).feePool = s.feePool ∧ (createBuiltins s).tips = s.tips := by
@@ -84,17 +85,12 @@ theorem C01_builtins (s : State) (d : Denom) (hk : (s.pools.map (·.1)).Nodup) :
     simp only [builtinDefault]; omega
   unfold supply createBuiltins
   simp only
-  have h1 := poolsTotal_setIf s.pools (s.pools.get poolMelSym).isNone poolMelSym builtinDefault d hk
-    (fun h => Option.isNone_iff_eq_none.mp h)
-  have h2 := poolsTotal_setIf _ (((if (s.pools.get poolMelSym).isNone then s.pools.set poolMelSym builtinDefault
-    else s.pools).get poolMelErg).isNone) poolMelErg builtinDefault d h1.1 (fun h => Option.isNone_iff_eq_none.mp h)
-  have h3 := poolsTotal_setIf _ (s.tip902 && ((if ((if (s.pools.get poolMelSym).isNone then
-    s.pools.set poolMelSym builtinDefault else s.pools).get poolMelErg).isNone then
-      (if (s.pools.get poolMelSym).isNone then s.pools.set poolMelSym builtinDefault else s.pools).set poolMelErg
-        builtinDefault
-    else (if (s.pools.get poolMelSym).isNone then s.pools.set poolMelSym builtinDefault else s.pools)).get
-      poolErgSym).isNone) poolErgSym builtinDefault d h2.1
-    (fun h => Option.isNone_iff_eq_none.mp (by simp only [Bool.and_eq_true] at h; exact h.2))
+  have h1 := poolsTotal_setIf s.pools (builtinMissing s.pools poolMelSym) poolMelSym builtinDefault d hk
+  generalize (if builtinMissing s.pools poolMelSym = true then s.pools.set poolMelSym builtinDefault
+      else s.pools) = p1 at h1 ⊢
+  have h2 := poolsTotal_setIf p1 (builtinMissing p1 poolMelErg) poolMelErg builtinDefault d h1.1
+  generalize (if builtinMissing p1 poolMelErg = true then p1.set poolMelErg builtinDefault else p1) = p2 at h2 ⊢
+  have h3 := poolsTotal_setIf p2 (s.tip902 && builtinMissing p2 poolErgSym) poolErgSym builtinDefault d h2.1
   have a1 := h1.2
   have a2 := h2.2
   have a3 := h3.2
